@@ -1,6 +1,6 @@
 ----------------------------- MODULE JudgeRouting -----------------------------
 (* C16: answers of the real providers (act) against Routing.tla (exp). One record per case. *)
-EXTENDS Naturals, Integers, Sequences, TLC, Json, IOUtils
+EXTENDS Naturals, Integers, Sequences, FiniteSets, TLC, Json, IOUtils
 Recs == ndJsonDeserialize(IOEnv.RECS)
 VARIABLE l
 E == Recs[l]
@@ -29,8 +29,26 @@ PragmaticAsModel == (E.kind = "prag") =>
 ApproxSymmetric == (E.kind = "approx") =>
    \A i \in 1..Len(E.act.dist) : /\ E.act.dist[i][i] = 0 /\ E.act.dur[i][i] = 0
                                   /\ \A j \in 1..Len(E.act.dist) : E.act.dist[i][j] = E.act.dist[j][i] /\ E.act.dur[i][j] = E.act.dur[j][i]
+\* the coordinate index numbers the distinct locations of a problem: equal coordinates share an index, different ones never do,
+\* the indices are 0..n-1, the approximated matrix has one row per distinct location and lookup by index gives the location back
+Pts == E.exp.points
+CoordIndexIsBijection == (E.kind = "approx") =>
+   /\ Len(E.act.index) = Len(Pts)
+   /\ \A i, j \in 1..Len(Pts) : (E.act.index[i] = E.act.index[j]) <=> (Pts[i] = Pts[j])
+   /\ E.act.unique = Cardinality({ Pts[i] : i \in 1..Len(Pts) })
+   /\ \A i \in 1..Len(Pts) : E.act.index[i] >= 0 /\ E.act.index[i] < E.act.unique
+   /\ Len(E.act.dist) = E.act.unique /\ Len(E.act.dur) = E.act.unique
+   /\ Len(E.act.back) = E.act.unique /\ \A k \in 1..Len(E.act.back) : E.act.back[k] >= 1 /\ E.act.back[k] <= Len(Pts) /\ E.act.index[E.act.back[k]] = k - 1
+\* different locations are a positive distance apart (the closest generated ones about three metres)
+ApproxSeparates == (E.kind = "approx") => \A i, j \in 1..Len(E.act.dist) : i # j => E.act.dist[i][j] > 0
+\* durations are distances divided by the profile's speed (10 by default), both rounded
+ApproxDurationFromSpeed == (E.kind = "approx") => LET sp == IF E.act.profile = "slow" THEN 5 ELSE 10 IN
+   \A i, j \in 1..Len(E.act.dist) : LET x == E.act.dur[i][j] * sp - E.act.dist[i][j] IN x <= sp /\ 0 - x <= sp
 J_BuildAsModel == Judge("BuildAsModel", BuildAsModel)
 J_AnswersAsModel == Judge("AnswersAsModel", AnswersAsModel)
 J_PragmaticAsModel == Judge("PragmaticAsModel", PragmaticAsModel)
 J_ApproxSymmetric == Judge("ApproxSymmetric", ApproxSymmetric)
+J_CoordIndexIsBijection == Judge("CoordIndexIsBijection", CoordIndexIsBijection)
+J_ApproxSeparates == Judge("ApproxSeparates", ApproxSeparates)
+J_ApproxDurationFromSpeed == Judge("ApproxDurationFromSpeed", ApproxDurationFromSpeed)
 =============================================================================
